@@ -1,11 +1,14 @@
 //! Harness binary `h_gs_d <PROP> --seed S --tier T [--count N] [--replay F]`.
 //! One module per property (`cNN.rs`, `pub fn run(args: &hcore::Args, out: &mut hcore::Out)`).
 
+mod c27;
+
 fn main() {
     let args = hcore::Args::parse();
     hcore::quiet_panics();
     let mut out = hcore::Out::new();
     match args.prop.as_str() {
+        "C27" => c27::run(&args, &mut out),
         p => {
             let _ = &mut out;
             eprintln!("h_gs_d: unknown property {p}");
